@@ -172,6 +172,74 @@ def continuity_job(n=5):
     return Job('C02', 'beat.continuity[self,%d]' % n, build, body, funcs=['beat.continuity'], bounds=dict(beats=n), timeout_s=3000, solver_timeout_ms=180000, max_decisions=2000000)
 
 
+def velocity_job(n, offset_ratio='default'):
+    """transcription with velocities: the rescaling regression is np.linalg.lstsq; here its solution is constrained by the
+    normal equations (Job(lstsq_exact=True)), which is what makes the self-comparison decidable: an exact fit exists"""
+    spec = T.by_name('transcription_velocity.precision_recall_f1_overlap')
+
+    def build(ctx):
+        inp = T.b_notes(velocity=True, tol_kw=('velocity_tolerance',), offset_ratio=offset_ratio)(ctx, (n, n))
+        inp['est'] = T.cp(inp['ref'])
+        return inp
+
+    def body(A, inp):
+        res = spec.call(inp)
+        for (nm, kind), v in zip(spec.outs, res):
+            A.observe(nm, v)
+            A.require(A.eq(v, 1), 'transcription_velocity.%s(x,x)==1' % nm)
+    return Job('C02', 'transcription_velocity.precision_recall_f1_overlap[self,%d,offset_ratio=%s]' % (n, offset_ratio), build, body, funcs=spec.funcs + ['transcription.match_notes'],
+               bounds=dict(items=n), exact_floats=False, timeout_s=1500, lstsq_exact=True)
+
+
+def velocity_unison_job():
+    """three overlapping notes of one pitch (concrete times: the maximum matching of the annotation with its copy is not
+    unique); velocities (0, x, 0) with x symbolic"""
+    spec = T.by_name('transcription_velocity.precision_recall_f1_overlap')
+
+    def build(ctx):
+        iv = S._wrap(np.array([[0.02, 0.27], [0.01, 0.21], [0.02, 0.23]]))
+        p = S._wrap(np.array([441.0, 441.0, 441.0]))
+        x = ctx.real('velocity1')
+        ctx.assume(x >= 0)
+        ctx.assume(x <= 127)
+        v = S.array([0.0, x, 0.0])
+        return dict(ref=(iv, p, v), est=(iv.copy(), p.copy(), v.copy()), kw={})
+
+    def body(A, inp):
+        res = spec.call(inp)
+        for (nm, kind), v in zip(spec.outs, res):
+            A.observe(nm, v)
+            A.require(A.eq(v, 1), 'transcription_velocity.%s(x,x)==1' % nm)
+    return Job('C02', 'transcription_velocity.precision_recall_f1_overlap[self,3 overlapping notes of one pitch]', build, body,
+               funcs=spec.funcs + ['transcription.match_notes'], bounds=dict(items=3, times='concrete'), exact_floats=False, timeout_s=600, lstsq_exact=True)
+
+
+def transcription_unison_job():
+    """three notes of one pitch starting within 10 ms (concrete onsets and pitches: the maximum matching of the annotation
+    with its copy is not unique), symbolic offsets"""
+    spec = T.by_name('transcription.precision_recall_f1_overlap')
+
+    def build(ctx):
+        on = [0.02, 0.01, 0.02]
+        rows = []
+        for i in range(3):
+            b = ctx.gridnum('off%d' % i, 10000)
+            ctx.assume(b >= 0.2)
+            ctx.assume(b <= 0.3)
+            rows.append([on[i], b])
+        iv = S.array(rows)
+        p = S._wrap(np.array([441.0, 441.0, 441.0]))
+        return dict(ref=(iv, p), est=(iv.copy(), p.copy()), kw={})
+
+    def body(A, inp):
+        res = spec.call(inp)
+        for (nm, kind), v in zip(spec.outs, res):
+            A.observe(nm, v)
+            A.require(A.eq(v, 1), '%s.%s(x,x)==1' % (spec.name, nm))
+    return Job('C02', 'transcription.precision_recall_f1_overlap[self,3 overlapping notes of one pitch]', build, body,
+               funcs=spec.funcs, bounds=dict(items=3, onsets='concrete'), exact_floats=False, timeout_s=600)
+
+
 def jobs(tier):
     q = tier == 'quick'
     js = []
@@ -212,6 +280,11 @@ def jobs(tier):
     ky.perfect = [1]
     js.append(make_job(ky, 10 if q else len(T.KEY_STRINGS)))
     js += melody_jobs(tier)
+    for n in (1, 2):
+        js.append(velocity_job(n))
+    js.append(velocity_job(1, None))
+    js.append(velocity_unison_job())
+    js.append(transcription_unison_job())
     js.append(goto_job(5))
     if not q:
         js.append(goto_job(6))
